@@ -284,6 +284,20 @@ pub fn f5_look(rng: &mut Rng, name: &str) -> Def {
         return def;
     }
     if rng.chance(1, 12) {
+        // a look-ahead inside a repetition that follows a complete match: base(sep look)* / base(sep look)+
+        def.family = "F5-rep-look".into();
+        let base = rng.pick_str(&["b", "#[a-z]*", "[0-9]+", "k"]);
+        let (sep, look) = *rng.pick(&[("\\n", "(?m:$)"), ("-", "(?-u:\\B)"), (" ", "(?-u:\\B)"), ("\\n", "(?m:$)"), ("x", "(?-u:\\b{end-half})")]);
+        let q = rng.pick_str(&["*", "+", "{1,3}", "{2,}"]);
+        def.push(Pat::regex(&format!("{base}({sep}{look}){q}"), 0).prio(8));
+        def.push(Pat::regex(&sep.replace("\\\\", "\\"), 0).prio(2));
+        if rng.chance(1, 2) {
+            def.push(Pat::regex("[a-z]", 0).prio(1));
+        }
+        def.normalize();
+        return def;
+    }
+    if rng.chance(1, 12) {
         // a repetition whose repeated byte itself satisfies the trailing assertion (late accept + self loop)
         def.family = "F5-loop-late".into();
         let (body, look) = *rng.pick(&[("\\n", "(?m:$)"), ("x", "(?-u:\\B)"), ("[a-z]", "(?-u:\\B)"), ("[ \\n]", "(?m:$)"), ("-", "(?-u:\\B)")]);
@@ -935,6 +949,11 @@ pub fn f7_curated() -> Vec<Def> {
     mk(true, vec![Pat::regex("\\n+(?m:$)", 0), Pat::regex("a", 0), Pat::skip(" ")]);
     mk(true, vec![Pat::regex("x+(?-u:\\B)", 0), Pat::regex("x", 0).prio(1), Pat::regex("[0-9]", 0)]);
     mk(false, vec![Pat::regex("[a-z]+(?-u:\\B)", 0).prio(9), Pat::regex("[a-z]+", 0).prio(3), Pat::skip(" ")]);
+    // a look-ahead inside a repetition that follows an already complete match (late accept on a loop entered from early accepts)
+    mk(true, vec![Pat::regex("(?m)#[^\\n]*(\\n$)*", 0).greedy(true), Pat::regex("[a-z]+", 0), Pat::token("\n", 0)]);
+    mk(true, vec![Pat::regex("(?m)b(\\n$)*", 0), Pat::regex("a", 0), Pat::token("\n", 0)]);
+    mk(true, vec![Pat::regex("a(-(?-u:\\B))*", 0), Pat::regex("-", 0).prio(1), Pat::regex("[0-9]", 0)]);
+    mk(false, vec![Pat::regex("k( (?-u:\\B))+", 0), Pat::regex(" ", 0).prio(1), Pat::regex("k", 0).prio(1)]);
     // binary tag lexers: more than two edges in the root, the highest byte with an edge on a table-size boundary
     mk(false, vec![Pat::new(PatKind::Token, Lit::b(b"\x00"), 0), Pat::new(PatKind::Token, Lit::b(b"\x01"), 0), Pat::new(PatKind::Token, Lit::b(b"\x02"), 0), Pat::new(PatKind::Token, Lit::b(b"\x7f"), 0), Pat::new(PatKind::Token, Lit::b(b"\x80"), 0)]);
     mk(false, vec![Pat::new(PatKind::Token, Lit::b(b"\x01"), 0), Pat::new(PatKind::Token, Lit::b(b"\x3f"), 0), Pat::new(PatKind::Token, Lit::b(b"\x40"), 0), Pat::new(PatKind::Regex, Lit::b(b"[\x10-\x20]+"), 0)]);
